@@ -52,7 +52,7 @@ def judge(ex, hname):
         for r in results:
             if r[0].startswith('event:') or r[0] == 'loop':
                 continue
-            api, status, err, arg = r
+            api, status, err, arg = r[:4]
             want = (thr.OPCODE[api], thr.payload_of(api, arg))
             present = want in frames
             if status == 'raised':
